@@ -77,20 +77,20 @@ impl CacheImplDetails for RandomPolicy {
     }
 
     //
-    fn check_if_expired(&self, key: &KeyType, record: &Record) -> bool {
-        let expired = self.store.check_if_expired(key, record);
-        if expired {
-            // the store has dropped the expired record
-            self.decr_mem_usage(record.len() as u64);
+    fn check_if_expired(&self, key: &KeyType, record: &Record) -> Option<usize> {
+        let dropped = self.store.check_if_expired(key, record);
+        if let Some(len) = dropped {
+            // what the store has dropped, if anything
+            self.decr_mem_usage(len as u64);
         }
-        expired
+        dropped
     }
 }
 
 impl Cache for RandomPolicy {
     fn get(&self, key: &KeyType) -> Result<Record> {
         let record = self.store.get_by_key(key)?;
-        if self.check_if_expired(key, &record) {
+        if self.check_if_expired(key, &record).is_some() {
             return Err(CacheError::NotFound);
         }
         Ok(record)
@@ -99,15 +99,14 @@ impl Cache for RandomPolicy {
     fn set(&self, key: KeyType, record: Record) -> Result<SetStatus> {
         let len = record.len() as u64;
         self.evict_while_over_limit();
-        let replaced = match self.store.get_by_key(&key) {
-            Ok(old) => old.len() as u64,
-            Err(_) => 0,
-        };
+        // accounted before it is stored and corrected by what the store reports, so
+        // that under concurrency the usage never runs below what is stored
+        self.memory_usage.fetch_add(len, atomic::Ordering::Release);
         let result = self.store.set(key, record);
-        if result.is_ok() {
-            self.memory_usage.fetch_add(len, atomic::Ordering::Release);
-            self.decr_mem_usage(replaced);
-        }
+        match &result {
+            Ok(status) => self.decr_mem_usage(status.replaced as u64),
+            Err(_) => self.decr_mem_usage(len),
+        };
         result
     }
 
@@ -129,10 +128,11 @@ impl Cache for RandomPolicy {
     }
 
     fn flush(&self, header: CacheMetaData) {
-        let immediate = header.time_to_live == 0;
-        self.store.flush(header);
-        if immediate {
-            self.memory_usage.store(0, atomic::Ordering::Release);
+        if header.time_to_live == 0 {
+            // record by record, un-accounting exactly what is dropped
+            self.remove_if(&mut |_key: &KeyType, _value: &Record| true);
+        } else {
+            self.store.flush(header);
         }
     }
 
